@@ -520,7 +520,9 @@ func GetConfigurationUpdateComplete() []byte {
 	return data.Bytes()
 }
 
-func GetServiceRequest(serviceType uint8) []byte {
+// GetServiceRequest builds a SERVICE REQUEST. For service type "data" the uplink data status names the PDU sessions
+// given in pduSessionIds (TS 24.501 9.11.3.57); without any it names session 10, as it always did.
+func GetServiceRequest(serviceType uint8, pduSessionIds ...uint8) []byte {
 
 	m := nas.NewMessage()
 	m.GmmMessage = nas.NewGmmMessage()
@@ -547,6 +549,15 @@ func GetServiceRequest(serviceType uint8) []byte {
 		serviceRequest.UplinkDataStatus.SetIei(nasMessage.ServiceRequestUplinkDataStatusType)
 		serviceRequest.UplinkDataStatus.SetLen(2)
 		serviceRequest.UplinkDataStatus.Buffer = []uint8{0x00, 0x04}
+		if len(pduSessionIds) > 0 {
+			status := []uint8{0x00, 0x00}
+			for _, id := range pduSessionIds {
+				if id < 16 {
+					status[id/8] |= 1 << (id % 8)
+				}
+			}
+			serviceRequest.UplinkDataStatus.Buffer = status
+		}
 	case nasMessage.ServiceTypeSignalling:
 	}
 
